@@ -112,6 +112,10 @@ class Report:
             out.setdefault(f["property"], {})[f["key"]] = f.get("what", "")
         return out
 
+    def has_unlisted_violations(self) -> bool:
+        known = self.load_known().get(self.prop, {})
+        return any(i.status == "violation" and i.key not in known for i in self.items)
+
     def finish(self, evidence_dir: Optional[Path] = None, quiet: bool = False) -> int:
         evidence_dir = evidence_dir or (VERIF / "evidence")
         evidence_dir.mkdir(parents=True, exist_ok=True)
